@@ -86,7 +86,7 @@ class Model (object):
         else:
           errs.append(("never-fired", "waiter %s (needs %s) has all its components registered "
                        "(%s) but did not run in the operation that completed them"
-                       % (wid, sorted(deps), sorted(self.comps))))
+                       % (wid, sorted(deps), sorted(self.comps)), wid))
     for wid in auto:
       deps = self.pending.pop(wid)
       self.fired[wid] = dict((n, self.comps.get(n, 0)) for n in deps)
